@@ -18,7 +18,7 @@
    stage upstream of the targets (C09_rerun_quiet), and the general re-run behaviour is
    characterised exactly (C09_rerun_sources: what executes is what is downstream of a source). *)
 From Coq Require Import NArith List Bool Relations.
-From DudV Require Import Base.Bytes Base.Json Base.GoPath Model.Fs Model.Cache Model.Stage Model.Index Proofs.PipelineProofs Proofs.RunProofs.
+From DudV Require Import Base.Bytes Base.Json Base.GoPath Model.Fs Model.Cache Model.Stage Model.Index Proofs.PipelineProofs Proofs.RunProofs Proofs.FreshProofs.
 Import ListNotations.
 
 Theorem C09_executed_or_unchanged :
@@ -65,3 +65,52 @@ Theorem C09_rerun_sources :
     (forall Y sy, alookup Y idx = Some sy -> ~ dos idx Y -> clean0 H idx c root' sy).
 Proof. exact C09_rerun_sources. Qed.
 Print Assumptions C09_rerun_sources.
+
+(* "Hence ... every output equals what its command produces from the current sources".
+   [fresh exec c sp stg root']: executing the command of stg in the FINAL workspace succeeds and
+   leaves every output with the contents it already has (contents = links into the cache read
+   through: FreshProofs.same_at; entry-level equality would be false under the link strategy,
+   FreshExamples.slot_equality_is_too_fine).  Premises: the command is a function of its inputs
+   (exec_functional); commits were made only after successful runs (committed_fresh: a stage that
+   is, with everything upstream, unchanged since its commit is fresh); inputs_wf - no output of a
+   stage lies at/under an input that the stage does not own (what Stage.validate enforces for a
+   stage's own inputs; FreshExamples.self_overlap_inputs_wf_needed shows it cannot be dropped). *)
+Theorem C09_outputs_fresh :
+  forall (H : bytes -> bytes) exec idx c,
+    exec_framed exec idx c -> idx_wf idx -> inputs_wf idx ->
+    forall fuel ts root root' ran' log',
+      exec_functional exec idx c ->
+      committed_fresh H exec idx c ->
+      run_targets H exec idx c true fuel ts (Ok (root, [], [])) = Ok (root', ran', log') ->
+      forall sp stg b, alookup sp ran' = Some b -> alookup sp idx = Some stg -> s_cmd stg <> [] ->
+        fresh exec c sp stg root'.
+Proof. exact run_outputs_fresh. Qed.
+Print Assumptions C09_outputs_fresh.
+
+(* without assuming that commands are functions of their inputs: the outputs in the final
+   workspace are what a successful execution wrote in a workspace with the inputs it has now *)
+Theorem C09_outputs_produced :
+  forall (H : bytes -> bytes) exec idx c,
+    exec_framed exec idx c -> idx_wf idx -> inputs_wf idx ->
+    forall fuel ts root root' ran' log',
+      committed_fresh H exec idx c ->
+      run_targets H exec idx c true fuel ts (Ok (root, [], [])) = Ok (root', ran', log') ->
+      forall sp stg b, alookup sp ran' = Some b -> alookup sp idx = Some stg -> s_cmd stg <> [] ->
+        produced exec c sp stg root'.
+Proof. exact run_outputs_produced. Qed.
+Print Assumptions C09_outputs_produced.
+
+(* how committed_fresh is established: a snapshot (the workspace right after `run; commit`) in
+   which every stage is unchanged-since-commit and fresh, recorded checksums determining contents
+   (proved for file artifacts from an injective hash: FreshProofs.short_top_file_determines;
+   a premise for directory artifacts) - partial: that the model's `run; commit` produces such a
+   snapshot is computed on FreshExamples' chain, not proved in general *)
+Theorem C09_committed_fresh_partial :
+  forall (H : bytes -> bytes) exec idx c,
+    NoDup (map fst idx) -> owned_below idx -> cs_determines H idx c ->
+    forall snap, exec_functional exec idx c ->
+      (forall sp stg, alookup sp idx = Some stg -> clean0 H idx c snap stg) ->
+      (forall sp stg, alookup sp idx = Some stg -> s_cmd stg <> [] -> fresh exec c sp stg snap) ->
+      committed_fresh H exec idx c.
+Proof. exact committed_fresh_intro. Qed.
+Print Assumptions C09_committed_fresh_partial.
